@@ -23,6 +23,7 @@ type extCfg struct {
 	isDir  bool
 	stall  string // "" | before-register | before-next
 	slowMs int    // held back this long (virtual time) before its first next
+	link   string // the directory entry is a symbolic link to this target
 }
 
 type scen struct {
@@ -47,6 +48,9 @@ func (s scen) name() string {
 		if e.slowMs > 0 {
 			k += fmt.Sprintf(":held-%dms", e.slowMs)
 		}
+		if e.link != "" {
+			k += ":symlink"
+		}
 		p = append(p, k)
 	}
 	var in []string
@@ -67,7 +71,7 @@ func (s scen) config(r **rec) *stack.Config {
 	cfg := &stack.Config{TimeoutSec: 3}
 	for _, e := range s.exts {
 		e := e
-		cfg.Exts = append(cfg.Exts, stack.ExtSpec{Name: e.name, IsDir: e.isDir, Body: func(x *stack.Actor) {
+		cfg.Exts = append(cfg.Exts, stack.ExtSpec{Name: e.name, IsDir: e.isDir, Symlink: e.link, Body: func(x *stack.Actor) {
 			if e.stall == "before-register" {
 				x.Stall()
 			}
@@ -377,6 +381,9 @@ func init() {
 		// directory entry next to a file; two internals
 		ss = append(ss, scen{exts: []extCfg{{name: "adir", isDir: true}, {name: "zfile", events: []string{"INVOKE"}}}, bound: b})
 		ss = append(ss, scen{exts: []extCfg{{name: "only-dir", isDir: true}}, bound: b})
+		// entries that are symbolic links (the target exists only inside the function's root): non-directory entries
+		ss = append(ss, scen{exts: []extCfg{{name: "afile", events: []string{"INVOKE"}}, {name: "blink", events: []string{"INVOKE"}, link: "/opt/tools/no-such-file-outside-the-root"}}, bound: b})
+		ss = append(ss, scen{exts: []extCfg{{name: "linkonly", events: []string{}, link: "../nowhere"}}, bound: b})
 		ss = append(ss, scen{internals: [][]string{{"INVOKE"}, {}}, bound: b})
 		// an internal extension registering while registration is being closed (the runtime has just asked for its
 		// first event, an external extension is still held back): accepted or refused, but if accepted it is waited for
